@@ -259,6 +259,15 @@ def main(argv):
             line = "%s AL %d %d 0 - %s %s" % (cid, 16 if j % 2 == 0 else 32, rng.below(1 << 31), setup, "A,F0,A|A,A,F1|F0,A")
             lines.append(line)
             meta[cid] = {"kind": "ALBIG", "line": line}
+        # sequential bulk histories: n ids live at once around the 128-cell block size and around the point where the
+        # 16-bit link table is complete (capacity 65536 = 2^16), free a pattern, reuse, for_each after every phase
+        seq = [(16, n) for n in (1, 127, 128, 129, 255, 256, 257, 1000, 65407, 65408, 65409, 65534)] + \
+              [(32, n) for n in (127, 128, 129, 257, 65537, 70000)]
+        for j, (bits, n) in enumerate(seq):
+            cid = "seq%d.%d" % (bits, n)
+            line = "%s SEQ %d %d %d" % (cid, bits, n, rng.choice([0, 2, 3, 7, 129]))
+            lines.append(line)
+            meta[cid] = {"kind": "SEQ", "line": line}
         # staged 16-bit version wrap (the _refuted witness of Properties_C14.v) and controls that must not wrap
         for split in range(0, 8):
             for pushes in (65536, 65535, 65537, 300) + ((131072, 131071) if thorough else ()):
@@ -291,7 +300,9 @@ def main(argv):
             "stale": "an id whose item had been taken matched again (or one id was handed out twice)",
             "payload": "the winning take did not get the item that was emplaced under this id, or an item held through an "
                        "Accessor was lost / overwritten",
-            "stable": "current_thread_id changed during a thread's life"}
+            "stable": "current_thread_id changed during a thread's life",
+            "foreach-exact": "for_each at quiescence did not report exactly the live values in a sequential history "
+                             "(allocate n, free a pattern, reuse)"}
     validated = 0
     distinct = set()
     nwrapdup = 0
@@ -348,7 +359,9 @@ def main(argv):
                        "plus Accessor operations (take into a holder, move-assign between holders incl. self-assignment, "
                        "move-construct, destroy) (DepositBox) over 2-3 threads after a sequential setup that pre-fills the free list / the box; schedules: "
                        "uniform random, PCT depth 3, round-robin with random pre-emption, and for small programs an exhaustive "
-                       "sweep of all one- and two-pre-emption schedules (replay strategy); thread-id scripts spawn/exit real "
+                       "sweep of all one- and two-pre-emption schedules (replay strategy); SEQ cases are sequential histories with n = 1 .. 65534 (16-bit) / "
+                       "70000 (32-bit) ids live at once (around the 128-cell block size and the 16-bit table capacity 65536); "
+                       "thread-id scripts spawn/exit real "
                        "threads in waves; WRAP cases stage the 65536-push window; distinct non-trivial = distinct (program, "
                        "observed outcome) pairs; small programs are explored exhaustively in the extracted model and every "
                        "implementation outcome (ids with versions, live set, end) must be in the model's outcome set")
